@@ -526,6 +526,21 @@ func c17R5(p *Prog, r *Report) {
 	ins := p.Func("cache", "BoundedCache", "insert")
 	info := ins.Info()
 	recv := ins.RecvObj()
+	// roles of the cache's and the node's fields, from their types and from insert itself, so that
+	// no rule depends on what the fields are called
+	roles := c17CacheRoles(p, ins)
+	if roles == nil {
+		r.Fail(rule, "cache.BoundedCache:roles", p.posStr(ins.Body.Pos()), "undecided: could not identify the map / capacity / head / tail fields of BoundedCache and the prev / next links of its node from their types and from insert")
+		return
+	}
+	isMap := func(i *types.Info, e ast.Expr) bool {
+		f := fieldOrVar(i, e)
+		return f != nil && f.Name() == roles.mapF && isField(f)
+	}
+	isCap := func(i *types.Info, e ast.Expr) bool {
+		f := fieldOrVar(i, e)
+		return f != nil && f.Name() == roles.capF && isField(f)
+	}
 	var store = -1
 	var node types.Object
 	for _, v := range ins.G.V {
@@ -533,7 +548,7 @@ func c17R5(p *Prog, r *Report) {
 		if !ok || len(as.Lhs) != 1 {
 			continue
 		}
-		if ix, ok := ast.Unparen(as.Lhs[0]).(*ast.IndexExpr); ok && strings.HasSuffix(exprStr(ix.X), ".nodeByKey") && objOf(info, ix.Index) == ins.ParamObj(0) {
+		if ix, ok := ast.Unparen(as.Lhs[0]).(*ast.IndexExpr); ok && isMap(info, ix.X) && objOf(info, ix.Index) == ins.ParamObj(0) {
 			store = v.ID
 			node = objOf(info, as.Rhs[0])
 		}
@@ -547,10 +562,19 @@ func c17R5(p *Prog, r *Report) {
 			if !ok || y == nil {
 				continue
 			}
-			sx, sy := exprStr(x), exprStr(y)
-			if strings.HasPrefix(sx, "len(") && strings.HasSuffix(sx, ".nodeByKey)") && strings.HasSuffix(sy, ".capacity") && (op == token.EQL || op == token.GEQ) {
+			isLen := func(e ast.Expr) bool {
+				c, ok := ast.Unparen(e).(*ast.CallExpr)
+				if !ok || len(c.Args) != 1 {
+					return false
+				}
+				id, ok := ast.Unparen(c.Fun).(*ast.Ident)
+				return ok && id.Name == "len" && isMap(info, c.Args[0])
+			}
+			full := (isLen(x) && isCap(info, y) && (op == token.EQL || op == token.GEQ)) || (isCap(info, x) && isLen(y) && (op == token.EQL || op == token.LEQ))
+			notFull := (isLen(x) && isCap(info, y) && (op == token.NEQ || op == token.LSS)) || (isCap(info, x) && isLen(y) && (op == token.NEQ || op == token.GTR))
+			if full || notFull {
 				for _, e := range cv.Succs {
-					if e.Label == LTrue {
+					if (e.Label == LTrue) == full {
 						fullT = append(fullT, e)
 					} else {
 						fullF = append(fullF, e)
@@ -560,7 +584,7 @@ func c17R5(p *Prog, r *Report) {
 		}
 		evict := -1
 		for _, cs := range ins.AllCalls() {
-			if cs.Fn != nil && cs.Fn.Name() == "remove" && len(cs.Call.Args) == 1 && strings.HasSuffix(exprStr(cs.Call.Args[0]), ".head") {
+			if cs.Fn != nil && cs.Fn.Name() == "remove" && len(cs.Call.Args) == 1 && normExpr(p, ins, cs.Call.Args[0]) == "recv."+roles.head {
 				evict = cs.V
 			}
 		}
@@ -577,8 +601,8 @@ func c17R5(p *Prog, r *Report) {
 		// tail
 		tailSet := false
 		for _, v := range ins.G.V {
-			if as, ok := v.Node.(*ast.AssignStmt); ok && len(as.Lhs) == 1 && strings.HasSuffix(exprStr(as.Lhs[0]), ".tail") && objOf(info, as.Rhs[0]) == node && node != nil {
-				if root, _, ok := pathOf(info, as.Lhs[0]); ok && root == recv && ins.G.Dominates([]int{v.ID}, ins.G.Exit) {
+			if as, ok := v.Node.(*ast.AssignStmt); ok && len(as.Lhs) == 1 && len(as.Rhs) == 1 && objOf(info, as.Rhs[0]) == node && node != nil {
+				if root, path, ok := pathOf(info, as.Lhs[0]); ok && root == recv && path == "."+roles.tail && ins.G.Dominates([]int{v.ID}, ins.G.Exit) {
 					tailSet = true
 				}
 			}
@@ -590,40 +614,44 @@ func c17R5(p *Prog, r *Report) {
 	n := rm.ParamObj(0)
 	del := -1
 	for _, cs := range rm.AllCalls() {
-		if id, ok := ast.Unparen(cs.Call.Fun).(*ast.Ident); ok && id.Name == "delete" && len(cs.Call.Args) == 2 && strings.HasSuffix(exprStr(cs.Call.Args[0]), ".nodeByKey") {
-			if sel, ok := ast.Unparen(cs.Call.Args[1]).(*ast.SelectorExpr); ok && sel.Sel.Name == "Key" && objOf(rinfo, sel.X) == n {
+		if id, ok := ast.Unparen(cs.Call.Fun).(*ast.Ident); ok && id.Name == "delete" && len(cs.Call.Args) == 2 && isMap(rinfo, cs.Call.Args[0]) {
+			// the key deleted is a field of the removed node that has the map's key type
+			root, path, okp := pathOf(rinfo, rm.Resolve(cs.Call.Args[1]))
+			mt, _ := rinfo.TypeOf(cs.Call.Args[0]).Underlying().(*types.Map)
+			if okp && root == n && path != "" && mt != nil && types.Identical(rinfo.TypeOf(cs.Call.Args[1]), mt.Key()) {
 				del = cs.V
 			}
 		}
 	}
 	r.Check(del >= 0 && rm.G.Dominates([]int{del}, rm.G.Exit), rule, "cache.(*BoundedCache).remove:deletes-own-key", p.posStr(rm.Body.Pos()), "the node's key is deleted from the map on every path", "remove leaves the node's key in the map: Len never shrinks and a later eviction dereferences a nil head")
 	// relinking: for side in prev,next: non-nil edge → write node.<side>.<other> ; nil edge → write c.head / c.tail
-	for _, side := range [][3]string{{"prev", "next", "head"}, {"next", "prev", "tail"}} {
+	// (expressions are compared after resolving locals to their definitions, so `p := node.prev;
+	// if p != nil { p.next = … }` is the same as the direct form)
+	for _, side := range [][4]string{{roles.prev, roles.next, roles.head, "prev"}, {roles.next, roles.prev, roles.tail, "next"}} {
 		var nn, nl []Edge
-		nn = rm.TestEdges(func(e ast.Expr) bool {
-			sel, ok := ast.Unparen(e).(*ast.SelectorExpr)
-			return ok && sel.Sel.Name == side[0] && objOf(rinfo, sel.X) == n
-		}, WantNonNil)
-		nl = rm.TestEdges(func(e ast.Expr) bool {
-			sel, ok := ast.Unparen(e).(*ast.SelectorExpr)
-			return ok && sel.Sel.Name == side[0] && objOf(rinfo, sel.X) == n
-		}, WantNil)
+		isSide := func(e ast.Expr) bool { return normExpr(p, rm, e) == n.Name()+"."+side[0] }
+		nn = rm.TestEdges(isSide, WantNonNil)
+		nl = rm.TestEdges(isSide, WantNil)
 		var okNN, okNil bool
 		for _, v := range rm.G.V {
 			as, ok := v.Node.(*ast.AssignStmt)
-			if !ok || len(as.Lhs) != 1 {
+			if !ok || len(as.Lhs) != 1 || len(as.Rhs) != 1 || v.Kind != VStmt {
 				continue
 			}
-			l, rhs := exprStr(as.Lhs[0]), exprStr(as.Rhs[0])
-			if l == n.Name()+"."+side[0]+"."+side[1] && rhs == n.Name()+"."+side[1] && rm.G.EdgeDominates(nn, v.ID) {
+			sel, isSel := ast.Unparen(as.Lhs[0]).(*ast.SelectorExpr)
+			if !isSel {
+				continue
+			}
+			lbase, lfield, rhs := normExpr(p, rm, sel.X), sel.Sel.Name, normExpr(p, rm, as.Rhs[0])
+			if lbase == n.Name()+"."+side[0] && lfield == side[1] && rhs == n.Name()+"."+side[1] && rm.G.EdgeDominates(nn, v.ID) {
 				okNN = true
 			}
-			if strings.HasSuffix(l, "."+side[2]) && rhs == n.Name()+"."+side[1] && rm.G.EdgeDominates(nl, v.ID) {
+			if lbase == "recv" && lfield == side[2] && rhs == n.Name()+"."+side[1] && rm.G.EdgeDominates(nl, v.ID) {
 				okNil = true
 			}
 		}
 		// each edge must lead to its write on every path to exit
-		r.Check(okNN && okNil && len(nn) > 0 && len(nl) > 0, rule, "cache.(*BoundedCache).remove:relinks-"+side[0]+"-side", p.posStr(rm.Body.Pos()), "node."+side[0]+"'s "+side[1]+" pointer (or "+side[2]+") is redirected to node."+side[1], "remove does not redirect the "+side[0]+" neighbour (or "+side[2]+") past the removed node: the list keeps a node the map no longer has")
+		r.Check(okNN && okNil && len(nn) > 0 && len(nl) > 0, rule, "cache.(*BoundedCache).remove:relinks-"+side[3]+"-side", p.posStr(rm.Body.Pos()), "node."+side[0]+"'s "+side[1]+" pointer (or "+side[2]+") is redirected to node."+side[1], "remove does not redirect the "+side[3]+" neighbour (or the list end) past the removed node: the list keeps a node the map no longer has")
 	}
 	// found-edge discipline
 	pkg := p.Pkg("cache")
@@ -639,7 +667,7 @@ func c17R5(p *Prog, r *Report) {
 				continue
 			}
 			ix, ok := ast.Unparen(as.Rhs[0]).(*ast.IndexExpr)
-			if !ok || !strings.HasSuffix(exprStr(ix.X), ".nodeByKey") {
+			if !ok || !isMap(finfo, ix.X) {
 				continue
 			}
 			nodeObj, okObj := objOf(finfo, as.Lhs[0]), objOf(finfo, as.Lhs[1])
@@ -772,4 +800,137 @@ func c17R6(p *Prog, r *Report) {
 	}
 	r.Check(nameOK, rule, "dns.(*Resolver).sendQueries:asks-for-name", p.posStr(sq.Body.Pos()), "the question name derives from the looked-up name", "the question name is not the looked-up name")
 	r.Floor(rule, 4)
+}
+
+type cacheRoles struct{ mapF, capF, head, tail, prev, next string }
+
+func isField(o types.Object) bool {
+	v, ok := o.(*types.Var)
+	return ok && v.IsField()
+}
+
+// c17CacheRoles identifies BoundedCache's fields by type (the map, the int capacity, the two node
+// pointers) and tells head from tail and prev from next by what insert does: the cache field that
+// receives the new node on every path is the tail; the node link that is initialised from the old
+// tail is prev.
+func c17CacheRoles(p *Prog, ins *FuncCtx) *cacheRoles {
+	pkg := p.Pkg("cache")
+	obj := pkg.Types.Scope().Lookup("BoundedCache")
+	if obj == nil {
+		return nil
+	}
+	st, ok := obj.Type().Underlying().(*types.Struct)
+	if !ok {
+		return nil
+	}
+	ro := &cacheRoles{}
+	var ends []string
+	var nodeT *types.Struct
+	nodeName := ""
+	for i := 0; i < st.NumFields(); i++ {
+		f := st.Field(i)
+		switch t := f.Type().Underlying().(type) {
+		case *types.Map:
+			if ro.mapF != "" {
+				return nil
+			}
+			ro.mapF = f.Name()
+		case *types.Basic:
+			if t.Kind() == types.Int {
+				if ro.capF != "" {
+					return nil
+				}
+				ro.capF = f.Name()
+			}
+		case *types.Pointer:
+			if s2, ok := t.Elem().Underlying().(*types.Struct); ok {
+				ends = append(ends, f.Name())
+				nodeT = s2
+				nodeName = namedTypeName(t.Elem())
+			}
+		}
+	}
+	if ro.mapF == "" || ro.capF == "" || len(ends) != 2 || nodeT == nil {
+		return nil
+	}
+	var links []string
+	for i := 0; i < nodeT.NumFields(); i++ {
+		f := nodeT.Field(i)
+		if pt, ok := f.Type().Underlying().(*types.Pointer); ok {
+			if namedTypeName(pt.Elem()) == nodeName && nodeName != "" {
+				links = append(links, f.Name())
+			}
+		}
+	}
+	if len(links) != 2 {
+		return nil
+	}
+	info := ins.Info()
+	recv := ins.RecvObj()
+	// the new node: the value stored into the map under the key parameter
+	var node types.Object
+	for _, v := range ins.G.V {
+		if as, ok := v.Node.(*ast.AssignStmt); ok && len(as.Lhs) == 1 && len(as.Rhs) == 1 {
+			if ix, ok := ast.Unparen(as.Lhs[0]).(*ast.IndexExpr); ok {
+				if f := fieldOrVar(info, ix.X); f != nil && f.Name() == ro.mapF {
+					node = objOf(info, as.Rhs[0])
+				}
+			}
+		}
+	}
+	if node == nil {
+		return nil
+	}
+	for _, v := range ins.G.V {
+		as, ok := v.Node.(*ast.AssignStmt)
+		if !ok || len(as.Lhs) != 1 || len(as.Rhs) != 1 || objOf(info, as.Rhs[0]) != node {
+			continue
+		}
+		if root, path, ok := pathOf(info, as.Lhs[0]); ok && root == recv && ins.G.Dominates([]int{v.ID}, ins.G.Exit) {
+			for i, e := range ends {
+				if path == "."+e {
+					ro.tail, ro.head = e, ends[1-i]
+				}
+			}
+		}
+	}
+	if ro.tail == "" {
+		return nil
+	}
+	// prev: the link of the new node that is given the old tail
+	set := func(link string, val ast.Expr) {
+		if normExpr(p, ins, val) != "recv."+ro.tail {
+			return
+		}
+		for i, l := range links {
+			if l == link {
+				ro.prev, ro.next = l, links[1-i]
+			}
+		}
+	}
+	ast.Inspect(ins.Body, func(x ast.Node) bool {
+		switch y := x.(type) {
+		case *ast.CompositeLit:
+			if t := info.TypeOf(y); t != nil && namedTypeName(t) == nodeName {
+				for _, el := range y.Elts {
+					if kv, ok := el.(*ast.KeyValueExpr); ok {
+						if id, ok := kv.Key.(*ast.Ident); ok {
+							set(id.Name, kv.Value)
+						}
+					}
+				}
+			}
+		case *ast.AssignStmt:
+			if len(y.Lhs) == 1 && len(y.Rhs) == 1 {
+				if sel, ok := ast.Unparen(y.Lhs[0]).(*ast.SelectorExpr); ok && objOf(info, sel.X) == node {
+					set(sel.Sel.Name, y.Rhs[0])
+				}
+			}
+		}
+		return true
+	})
+	if ro.prev == "" {
+		return nil
+	}
+	return ro
 }
